@@ -78,6 +78,23 @@ def grid(case, res):
                     S.send_payload(own, json.dumps({"id": p.fwd_id, "result": "late"}).encode())
                     S.settle()          # any effect would be a second response (rpc/second-response...)
                     S.sig("outcome", "late-reply-ignored")
+            if rng.random() < 0.5:
+                # a second and third request on the SAME element: what an earlier request carried (or was refused for) must not
+                # stick to the element; the armed value is checked against the precedence rule at every forward
+                for tr2 in (AUTO, rng.choice(GRID), AUTO):
+                    rp2 = {"path": path}
+                    if is_state:
+                        rp2["value"] = S.next_val(cal)
+                    else:
+                        rp2["args"] = [S.next_val(cal)]
+                    if tr2 is not AUTO:
+                        rp2["timeout"] = tr2
+                    p2 = S.request(cal, "set" if is_state else "call", rp2)
+                    S.settle()
+                    if p2.state == "forwarded":
+                        S.reply(own, p2, "result")
+                        S.settle()
+                S.sig("same-element-again", "abs" if te is AUTO else type(te).__name__)
             S.request(own, "remove", {"path": path})
             S.settle()
         st = S.close_all()
